@@ -4,7 +4,7 @@ CONSTANTS
   ScaleArgs <- MCScaleArgs
   AseArgs <- MCAseArgs
   NliArgs <- MCNliArgs
-  Cuts <- MCCuts
+  Splits <- MCSplits
   MaxDepth = 3
 INIT EmitInit
 NEXT EmitNext
